@@ -13,8 +13,7 @@
    configurations (the reals theorems do not). *)
 From Coq Require Import ZArith List Bool Reals. Import ListNotations.
 From PV Require Import Num NumR model.Geom proofs.LatticeFacts proofs.SiteFacts proofs.OverlapFacts proofs.ConvexFacts proofs.PackingFacts proofs.MotionFacts.
-From PV Require Import gen.GenFns proofs.SourceFacts.
-From PV Require Import gen.GenFns proofs.SourceFacts proofs.SearchFacts.
+From PV Require Import gen.GenFns model.Iter model.Pipeline proofs.ListLemmas proofs.SrcShapes.
 
 Theorem C12_seg_yes_gives_common_point :
   forall s o : segR, seg_intersects NumR s o = true -> exists ta tb : R, (0 <= ta <= 1)%R /\ (0
@@ -122,10 +121,6 @@ Theorem C12_seg_intersects_is_source :
 Proof. exact seg_intersects_is_source. Qed.
 Print Assumptions C12_seg_intersects_is_source.
 
-Theorem C12_source_translated :
-  gen_fns_problem = String.EmptyString.
-Proof. exact source_translated. Qed.
-Print Assumptions C12_source_translated.
 
 
 Theorem S_radial_edge_is_source :
@@ -151,4 +146,19 @@ Theorem S_shape_intersects_is_source :
     (Mol a) (Mol b).
 Proof. exact shape_intersects_is_source. Qed.
 Print Assumptions S_shape_intersects_is_source.
+
+
+Theorem C12_shapes_source_translated :
+  translated_gen_mol_trimer = true /\ translated_gen_lj_trimer = true /\
+    translated_gen_lj_energy = true /\ translated_gen_ljshape_energy = true /\
+    translated_gen_disc_intersects = true /\ translated_gen_seg_intersects = true /\
+    translated_gen_poly_intersects = true /\ translated_gen_mol_intersects = true /\
+    translated_gen_radial_dtheta = true /\ translated_gen_radial_edge = true /\
+    translated_gen_angle_term = true /\ translated_gen_poly_term = true /\
+    translated_gen_poly_radius_term = true /\ translated_gen_mol_radius_term = true /\
+    translated_gen_poly_radius = true /\ translated_gen_mol_radius = true /\
+    translated_gen_poly_area = true /\ translated_gen_overlap_area = true /\
+    translated_gen_circle_overlap = true /\ translated_gen_mol_area = true.
+Proof. exact shapes_source_translated. Qed.
+Print Assumptions C12_shapes_source_translated.
 
